@@ -233,21 +233,9 @@ func (fr *frame) block(b *ssa.BasicBlock, st *state) {
 				st.heap["G_sent"] = fmt.Sprintf("(store %s %s (+ (select %s %s) 1))", cur, ch, cur, ch)
 			}
 			// lastSent[ch]: the value most recently sent on ch (declared per element type by the contracts that use it)
-			if gt, ok := vc.w.db.Ghosts["lastSent"]; ok {
-				pk := fr.fn.Pkg
-				for p := fr.fn.Parent(); pk == nil && p != nil; p = p.Parent() {
-					pk = p.Pkg
-				}
-				tr := &trans{c: c, vars: map[string]tvar{}, cur: st, old: st, depth: 1}
-				if pk != nil {
-					tr.pkg = pk.Pkg.Path()
-				}
-				vt := tr.resolveType(gt)
-				c.heapSorts["G_lastSent"] = vt.sort
-				if vt.sort == fmt.Sprintf("(Array Ref %s)", c.sortOf(x.X.Type())) && vc.ensureKey("G_lastSent") {
-					cur := c.heapGet(st, "G_lastSent")
-					st.heap["G_lastSent"] = fmt.Sprintf("(store %s %s %s)", cur, fr.val(x.Chan), fr.val(x.X))
-				}
+			if fr.lastSentReady(st, x.X.Type()) {
+				cur := c.heapGet(st, "G_lastSent")
+				st.heap["G_lastSent"] = fmt.Sprintf("(store %s %s %s)", cur, fr.val(x.Chan), fr.val(x.X))
 			}
 		case *ssa.Select:
 			c.note("select abstracted: nondeterministic choice, received values unconstrained")
@@ -259,6 +247,22 @@ func (fr *frame) block(b *ssa.BasicBlock, st *state) {
 					lo = -1
 				}
 				vc.assumeG(fmt.Sprintf("(and (>= %s %s) (< %s %d))", comps[0], smtInt(int64(lo)), comps[0], len(x.States)))
+				// a send case that is chosen is a send: the ghosts sent / lastSent record it
+				for i, sc := range x.States {
+					if sc.Dir != types.SendOnly {
+						continue
+					}
+					chosen := fmt.Sprintf("(= %s %d)", comps[0], i)
+					ch := fr.val(sc.Chan)
+					if _, ok := vc.w.db.Ghosts["sent"]; ok && vc.ensureKey("G_sent") {
+						cur := c.heapGet(st, "G_sent")
+						st.heap["G_sent"] = fmt.Sprintf("(ite %s (store %s %s (+ (select %s %s) 1)) %s)", chosen, cur, ch, cur, ch, cur)
+					}
+					if fr.lastSentReady(st, sc.Send.Type()) {
+						cur := c.heapGet(st, "G_lastSent")
+						st.heap["G_lastSent"] = fmt.Sprintf("(ite %s (store %s %s %s) %s)", chosen, cur, ch, fr.val(sc.Send), cur)
+					}
+				}
 			}
 		case *ssa.If, *ssa.Jump:
 		case *ssa.Return:
@@ -990,4 +994,40 @@ func (ii *initInfo) covered(a *ssa.Alloc, leafPath string) bool {
 		}
 	}
 	return false
+}
+
+// lastSentReady: the ghost lastSent is declared, and for channels carrying values of this type.
+func (fr *frame) lastSentReady(st *state, elem types.Type) bool {
+	vc := fr.vc
+	c := vc.c
+	gt, ok := vc.w.db.Ghosts["lastSent"]
+	if !ok {
+		return false
+	}
+	pk := fr.fn.Pkg
+	for p := fr.fn.Parent(); pk == nil && p != nil; p = p.Parent() {
+		pk = p.Pkg
+	}
+	tr := &trans{c: c, vars: map[string]tvar{}, cur: st, old: st, depth: 1}
+	if pk != nil {
+		tr.pkg = pk.Pkg.Path()
+	}
+	var vt vtype
+	resolved := func() (ok bool) {
+		defer func() {
+			if r := recover(); r != nil {
+				if _, isTE := r.(transError); !isTE {
+					panic(r)
+				}
+				ok = false // the ghost's element type is not visible from this package: no such channel here
+			}
+		}()
+		vt = tr.resolveType(gt)
+		return true
+	}()
+	if !resolved {
+		return false
+	}
+	c.heapSorts["G_lastSent"] = vt.sort
+	return vt.sort == fmt.Sprintf("(Array Ref %s)", c.sortOf(elem)) && vc.ensureKey("G_lastSent")
 }
